@@ -106,7 +106,7 @@ class MirImpl:
     def _cfg(self, cfg):
         I = self.I
         tl = I.mk_struct(TL, tag_name=StringObj(list(cfg['tl_tag'])), time_offset=StringObj(list(cfg['tl_offset'])),
-                         current=mk_instant(cfg['now']))
+                         current=mk_instant(cfg['now'], cfg.get('now_ns', 0)))
         rm = I.mk_struct(RM, tag_name=StringObj(list(cfg['rm_tag'])),
                          targets=SetObj([StringObj(list(t)) for t in cfg['targets']]))
         return I.mk_struct(CC, time_limited_configuration=tl, removal_marker_configuration=rm)
@@ -147,7 +147,7 @@ class MirImpl:
         self._rec('format', dict(content=list(content), pos=[[p, q] for p, q in pos]), res)
         return res['out']
 
-    def is_removal(self, to, offset, now, has_to=True):
+    def is_removal(self, to, offset, now, has_to=True, now_ns=0):
         I = self.I
         A = 'element_parser::Attribute'
         attrs = []
@@ -155,10 +155,10 @@ class MirImpl:
             attrs.append(I.mk_struct(A, name=cstr('to'), value=NONE() if to is None else some(StrRef(to, 0, len(to)))))
         el = I.mk_struct('element_parser::Element', name=cstr('t'), attrs=VecObj(attrs))
         ev = I.mk_struct('code::remover::removal_evaluator::time_limited_evaluator::TimeLimitedEvaluator',
-                         current_time=mk_instant(now), time_offset=StringObj(list(offset)))
+                         current_time=mk_instant(now, now_ns), time_offset=StringObj(list(offset)))
         key = ('code::remover::removal_evaluator::time_limited_evaluator::TimeLimitedEvaluator', 'RemovalEvaluator', 'is_removal')
         r = self._call(I.impls[key], [Ref(Slot([ev], 0)), Ref(Slot([el], 0))])
-        self._rec('is_removal', dict(to=to, offset=offset, now=now, has_to=has_to), dict(out=r))
+        self._rec('is_removal', dict(to=to, offset=offset, now=now, has_to=has_to, now_ns=now_ns), dict(out=r))
         return r
 
     def pretty_item(self, content, start, end, is_removal, coloring, line_range):
@@ -298,8 +298,8 @@ class NativeImpl:
     def format(self, content, pos):
         return self.request(dict(fn='format', content=content, pos=[[p, q] for p, q in pos]))['out']
 
-    def is_removal(self, to, offset, now, has_to=True):
-        return self.request(dict(fn='is_removal', to=to, offset=offset, now=now, has_to=has_to))['out']
+    def is_removal(self, to, offset, now, has_to=True, now_ns=0):
+        return self.request(dict(fn='is_removal', to=to, offset=offset, now=now, has_to=has_to, now_ns=now_ns))['out']
 
     def pretty_item(self, content, start, end, is_removal, coloring, line_range):
         return self.request(dict(fn='pretty_item', content=content, start=start, end=end, is_removal=is_removal,
